@@ -281,6 +281,7 @@ func (g *genInterp) eval(e ast.Expr) Val {
 		}
 		if r.isNil() {
 			g.panicIf(tTrue)
+			g.pc = tFalse // nothing executes after the panic
 			return GenOpaque{What: "deref-nil"}
 		}
 		return g.sig.Heap[r.Cell]
@@ -909,6 +910,60 @@ func (c *EvalCtx) stage2Builtin(n *Node) (Val, bool) {
 	case "parses":
 		fr := prepareFragment(c.emittedText(c.eval(n.Kids[0])))
 		return mkBool(fr.ParseErr == ""), true
+	case "recv_written_last", "raw_ready", "frags_ordered", "shadow_ok", "error_returns_only", "shadow_name":
+		fr := prepareFragment(c.emittedText(c.eval(n.Kids[0])))
+		if fr.ParseErr != "" {
+			if n.Name == "shadow_name" {
+				return lit(""), true
+			}
+			return tFalse, true
+		}
+		sk := analyseSkeleton(fr)
+		switch n.Name {
+		case "recv_written_last":
+			return mkBool(sk.recvWrittenLast), true
+		case "raw_ready":
+			return mkBool(sk.rawReady), true
+		case "frags_ordered":
+			return mkBool(sk.fragsOrdered), true
+		case "error_returns_only":
+			return mkBool(sk.errorReturnsOnly), true
+		case "shadow_name":
+			return lit(sk.shadowName), true
+		}
+		decl, _ := c.eval(n.Kids[1]).(Text)
+		dn, _ := decl.concrete()
+		return mkBool(sk.shadowName != "" && sk.shadowName != dn && sk.shadowOf == dn && sk.plainType == sk.shadowName && sk.finalConv == dn && sk.typeDecls == 1), true
+	case "map_has":
+		m, ok := c.eval(n.Kids[0]).(MapV)
+		if !ok {
+			specErr(n, "map_has: map expected")
+		}
+		if m.Cell == 0 {
+			return tFalse, true
+		}
+		ma := c.st.Heap[m.Cell].(*MapAgg)
+		k := keyIndex(ma, c.eval(n.Kids[1]))
+		return mkBool(k >= 0), true
+	case "independent_of":
+		// the emitted text does not depend on the given (unknown) string input
+		em := c.emittedText(c.eval(n.Kids[0]))
+		in, ok := c.eval(n.Kids[1]).(Text)
+		if !ok {
+			specErr(n, "independent_of: string expected")
+		}
+		dep := false
+		for _, f := range in.Frags {
+			if f.Kind != FAtom {
+				continue
+			}
+			for _, ef := range em.Frags {
+				if ef.Kind == FAtom && (ef.Atom == f.Atom || strings.Contains(ef.Atom, "("+f.Atom+")")) {
+					dep = true
+				}
+			}
+		}
+		return mkBool(!dep), true
 	case "mentions":
 		fr := prepareFragment(c.emittedText(c.eval(n.Kids[0])))
 		name := c.eval(n.Kids[1]).(Text)
@@ -1026,4 +1081,170 @@ func (c *EvalCtx) noteFragErrs(n *Node, res *FragResult) {
 		}
 		specErr(n, "stage 2: %s", strings.Join(es, "; "))
 	}
+}
+
+// ---------------------------------------------------------------------------
+// Skeleton analysis of an emitted unmarshal method (syntactic, on the AST).
+
+type skeleton struct {
+	recvWrittenLast  bool
+	rawReady         bool
+	fragsOrdered     bool
+	errorReturnsOnly bool
+	shadowName       string // N in `type N T`
+	shadowOf         string // T
+	plainType        string // type in `var plain X`
+	finalConv        string // T in `*j = T(plain)`
+	typeDecls        int
+}
+
+func mentionsIdent(n ast.Node, name string) bool {
+	found := false
+	ast.Inspect(n, func(x ast.Node) bool {
+		if id, ok := x.(*ast.Ident); ok && id.Name == name {
+			found = true
+		}
+		return true
+	})
+	return found
+}
+
+func isReturnNil(s ast.Stmt) bool {
+	r, ok := s.(*ast.ReturnStmt)
+	if !ok || len(r.Results) != 1 {
+		return false
+	}
+	id, ok := r.Results[0].(*ast.Ident)
+	return ok && id.Name == "nil"
+}
+
+// decodesInto reports whether the statement is `if err := <decode>(... &X ...); err != nil { return err }`
+func decodesInto(s ast.Stmt, x string) bool {
+	is, ok := s.(*ast.IfStmt)
+	if !ok || is.Init == nil {
+		return false
+	}
+	as, ok := is.Init.(*ast.AssignStmt)
+	if !ok || len(as.Rhs) != 1 {
+		return false
+	}
+	call, ok := as.Rhs[0].(*ast.CallExpr)
+	if !ok {
+		return false
+	}
+	fn := render(call.Fun)
+	if !(strings.HasSuffix(fn, ".Unmarshal") || strings.HasSuffix(fn, ".Decode")) {
+		return false
+	}
+	for _, a := range call.Args {
+		if u, ok := a.(*ast.UnaryExpr); ok && u.Op == token.AND && render(u.X) == x {
+			return true
+		}
+	}
+	return false
+}
+
+func analyseSkeleton(fr *Fragment) *skeleton {
+	sk := &skeleton{}
+	body := fr.Body
+	n := len(body)
+	// receiver: only in the statement before the final `return nil`
+	sk.recvWrittenLast = n >= 2 && isReturnNil(body[n-1])
+	if sk.recvWrittenLast {
+		as, ok := body[n-2].(*ast.AssignStmt)
+		if !ok || len(as.Lhs) != 1 || render(as.Lhs[0]) != "*j" {
+			sk.recvWrittenLast = false
+		} else if call, ok := as.Rhs[0].(*ast.CallExpr); ok && len(call.Args) == 1 {
+			sk.finalConv = render(call.Fun)
+		}
+		for i, st := range body {
+			if i != n-2 && mentionsIdent(st, "j") {
+				sk.recvWrittenLast = false
+			}
+		}
+	}
+	// raw: declared and decoded before any other mention
+	declared, decoded := false, false
+	sk.rawReady = true
+	plainDecodedAt := -1
+	lastB, lastAfter := -1, -1
+	sk.fragsOrdered = true
+	sk.errorReturnsOnly = true
+	for i, st := range body {
+		if ds, ok := st.(*ast.DeclStmt); ok {
+			if gd, ok := ds.Decl.(*ast.GenDecl); ok {
+				for _, sp := range gd.Specs {
+					switch d := sp.(type) {
+					case *ast.ValueSpec:
+						for _, nm := range d.Names {
+							if nm.Name == "raw" {
+								declared = true
+							}
+							if nm.Name == "plain" && d.Type != nil {
+								sk.plainType = render(d.Type)
+							}
+						}
+					case *ast.TypeSpec:
+						sk.typeDecls++
+						sk.shadowName = d.Name.Name
+						sk.shadowOf = render(d.Type)
+					}
+				}
+				continue
+			}
+		}
+		if decodesInto(st, "raw") {
+			if !declared {
+				sk.rawReady = false
+			}
+			decoded = true
+			continue
+		}
+		if decodesInto(st, "plain") {
+			plainDecodedAt = i
+		}
+		if mentionsIdent(st, "raw") && !(declared && decoded) {
+			sk.rawReady = false
+		}
+		// fragment markers
+		if es, ok := st.(*ast.ExprStmt); ok {
+			if call, ok := es.X.(*ast.CallExpr); ok {
+				fn := render(call.Fun)
+				if strings.HasPrefix(fn, "FRAG") {
+					var idx int
+					kind := fn[4:5]
+					fmt.Sscanf(fn[6:], "%d", &idx)
+					if kind == "B" {
+						if plainDecodedAt >= 0 || idx < lastB {
+							sk.fragsOrdered = false
+						}
+						lastB = idx
+					} else {
+						if plainDecodedAt < 0 || idx < lastAfter {
+							sk.fragsOrdered = false
+						}
+						lastAfter = idx
+					}
+				}
+			}
+		}
+	}
+	if plainDecodedAt < 0 {
+		sk.fragsOrdered = false
+	}
+	// every return except the last returns an error value obtained from a failed call
+	for i, st := range body {
+		if i == n-1 {
+			continue
+		}
+		ast.Inspect(st, func(x ast.Node) bool {
+			if r, ok := x.(*ast.ReturnStmt); ok {
+				if len(r.Results) != 1 || isReturnNil(r) {
+					sk.errorReturnsOnly = false
+				}
+			}
+			return true
+		})
+	}
+	return sk
 }
